@@ -539,6 +539,9 @@ func (g *c07tgen) fnType(depth, fn, maxIn, maxOut int) *c07t {
 	if no > 0 && g.r.chance(35) {
 		out[no-1] = ctErr
 	}
+	if no == 1 && g.r.chance(12) {
+		out[0] = ctBool
+	}
 	return c07func(in, out, variadic)
 }
 
